@@ -268,6 +268,49 @@ pub fn protos_groups(ctx: &Ctx) {
     judge_proto(ctx, proto);
 }
 
+/// (v) very wide prototypes: XYZ + k extension records of one kind, k around the sizes where a
+/// single point stops fitting into a data packet (64-bit, 1-bit and zero-width records). Every
+/// call must return (no hang, no panic, no arithmetic overflow); a refusal is acceptable, success
+/// means the file reads back.
+pub fn protos_wide(ctx: &Ctx) {
+    let kind = ctx.pick("record-kind", 3);
+    const RANGES: [(usize, usize); 4] = [(5880, 5930), (20790, 20830), (21650, 21700), (60, 64)];
+    let ri = ctx.pick("size-range", RANGES.len());
+    let k = RANGES[ri].0 + ctx.pick("records", RANGES[ri].1 - RANGES[ri].0);
+    let ty = match kind {
+        0 => F64,
+        1 => Ty::Int { min: 0, max: 1 },
+        _ => Ty::Int { min: 7, max: 7 },
+    };
+    let mut proto = cat::xyz(F32);
+    for i in 0..k {
+        proto.push(ext_rec("ext", &format!("a{i}"), ty.clone()));
+    }
+    let n = [1usize, 3][ctx.pick("npoints", 2)];
+    let cl = cloud(proto.clone(), n, 5);
+    let p = Program { guid: "g".into(), ops: vec![Op::Ext("ext".into(), "http://example.com/ext".into()), Op::Cloud(cl)], ..Default::default() };
+    ctx.describe(|| format!("XYZ f32 + {k} extension records of type {} , {n} points", ty.describe()));
+    let dev = Dev::empty();
+    let h = dev.handle();
+    let run = run_program(dev, &p, &ExecOpts::default());
+    ctx.ops(run.api_calls);
+    if let Some((i, pi)) = &run.panic {
+        ctx.violation(format!("{P}/panic/{}", pi.class()), format!("writer panicked at {} ({}) during op #{i}: XYZ + {k} records of {}", pi.loc, pi.msg, ty.describe()));
+        return;
+    }
+    match &run.err {
+        Some((_, call, _)) => ctx.count(format!("wide:rejected-by:{call}")),
+        None => {
+            let w = Written { bytes: h.snapshot(), run };
+            if read_and_compare(ctx, &p, &w, P, None).is_some() {
+                ctx.count("wide:accepted-and-read-back");
+                ctx.nontrivial();
+            }
+        }
+    }
+    ctx.observe_u64((kind * 100_000 + k * 2 + n) as u64);
+}
+
 // ------------------------------------------------------------------------------------------
 // values
 
